@@ -1,8 +1,10 @@
 package rules
 
 import (
+	"fmt"
 	"go/token"
 	"go/types"
+	"regexp"
 	"sort"
 	"strings"
 
@@ -219,4 +221,55 @@ func checkNameAgree(c *core.Ctx, l *core.Ledger, mod *tmpl.Model) {
 		l.Check(d != nil && d == r && okUse, "NAME-AGREE", "enum-item", "", "enum items are declared and referred to through the same function enumItemName", "enum item declarations and references do not share one naming function")
 	}
 	l.Floor("NAME-AGREE", 3)
+}
+
+// checkMethodReserve (METHOD-RESERVE): a template that declares methods whose
+// names are built from a field's Go name — func (v *T) Get<$f>() … — must
+// reserve, in one namespace, the field name itself and every such method name
+// before declaring it; otherwise a field called get_name next to a field called
+// name is accepted and yields a struct with a field and a method of one name.
+// Decided on the template text: every `func (…) P<$f>(` inside the range over
+// the fields needs `reserveFieldOrMethod (printf "P%v" $f)`, and `$f` itself
+// needs `reserveFieldOrMethod $f`, where $f is the variable bound to goName.
+func checkMethodReserve(c *core.Ctx, l *core.Ledger, mod *tmpl.Model) {
+	reVar := regexp.MustCompile(`<-?\s*(\$\w+)\s*:=\s*goName\s+\.\s*-?>`)
+	n := 0
+	for _, t := range mod.Templates {
+		m := reVar.FindStringSubmatch(t.Text)
+		if m == nil {
+			continue
+		}
+		v := regexp.QuoteMeta(m[1])
+		reMeth := regexp.MustCompile(`func \([^)]*\)\s*(\w+)<` + v + `>\(`)
+		meths := reMeth.FindAllStringSubmatch(t.Text, -1)
+		if len(meths) == 0 {
+			continue
+		}
+		// the reserving function: a bound template function whose Go implementation calls (*namespace).Reserve
+		var reserveFn string
+		for name, b := range t.Funcs {
+			if b == nil || b.Lit == nil {
+				continue
+			}
+			if strings.Contains(nodeStr(c.Fset, b.Lit), ".Reserve(") {
+				reserveFn = name
+			}
+		}
+		n++
+		var why []string
+		if reserveFn == "" {
+			why = append(why, "no template function that reserves names in a namespace is bound")
+		} else {
+			if !regexp.MustCompile(`<-?\s*` + reserveFn + `\s+` + v + `\s*-?>`).MatchString(t.Text) {
+				why = append(why, "the field name itself is not reserved in the accessor namespace")
+			}
+			for _, mm := range meths {
+				if !regexp.MustCompile(`<-?\s*` + reserveFn + `\s+\(printf "` + regexp.QuoteMeta(mm[1]) + `%v" ` + v + `\)\s*-?>`).MatchString(t.Text) {
+					why = append(why, "method "+mm[1]+"<field> is declared without reserving its name")
+				}
+			}
+		}
+		l.Check(len(why) == 0, "METHOD-RESERVE", t.ID, c.Rel(t.Pos), fmt.Sprintf("field names and the %d accessor name patterns share one namespace and are reserved before they are declared", len(meths)), strings.Join(uniq(why), "; "))
+	}
+	l.Floor("METHOD-RESERVE", 1)
 }
